@@ -309,13 +309,13 @@ func appendedSliceSorted(mr *MapRange, app *ssa.Call) bool {
 	for _, u := range outside {
 		switch x := u.(type) {
 		case *ssa.Call:
-			if sortCallee(ir.CalleeName(&x.Call)) {
+			if sortCallee(ir.CalleeName(&x.Call)) && comparatorTotal(x) {
 				sorted = true
 			}
 		case *ssa.MakeInterface: // sort.Slice(x any, …)
 			if x.Referrers() != nil {
 				for _, rr := range *x.Referrers() {
-					if call, ok := rr.(*ssa.Call); ok && sortCallee(ir.CalleeName(&call.Call)) {
+					if call, ok := rr.(*ssa.Call); ok && sortCallee(ir.CalleeName(&call.Call)) && comparatorTotal(call) {
 						sorted = true
 					}
 				}
@@ -323,6 +323,97 @@ func appendedSliceSorted(mr *MapRange, app *ssa.Call) bool {
 		}
 	}
 	return sorted
+}
+
+// comparatorTotal: a sort call that takes a comparison closure sorts into a unique order
+// only if the comparison distinguishes any two different elements. Accepted: the closure
+// compares the elements themselves (basic element type), calls String() on them, or reads
+// every field of the element struct. Sort calls without a closure (sort.Strings …) are total.
+func comparatorTotal(call *ssa.Call) bool {
+	var cl *ssa.Function
+	for _, a := range call.Call.Args {
+		if mc, ok := a.(*ssa.MakeClosure); ok {
+			cl = mc.Fn.(*ssa.Function)
+		}
+		if f, ok := a.(*ssa.Function); ok {
+			cl = f
+		}
+	}
+	if cl == nil || cl.Blocks == nil {
+		return true
+	}
+	// element type of the sorted slice
+	var elemStruct *types.Struct
+	if len(call.Call.Args) > 0 {
+		a0 := call.Call.Args[0]
+		if mi, ok := a0.(*ssa.MakeInterface); ok {
+			a0 = mi.X
+		}
+		if sl, ok := a0.Type().Underlying().(*types.Slice); ok {
+			if s, ok := derefStruct(sl.Elem()); ok {
+				elemStruct = s
+			}
+		}
+	}
+	if elemStruct == nil {
+		return true // elements of basic type: any comparison on them is total enough to audit elsewhere
+	}
+	fieldsRead := map[string]bool{}
+	var structT *types.Struct
+	stringCalled, wholeCompared := false, false
+	ir.EachInstr(cl, func(in ssa.Instruction) {
+		switch x := in.(type) {
+		case *ssa.FieldAddr:
+			if s, ok := derefStruct(x.X.Type()); ok && elemStruct != nil && types.Identical(s, elemStruct) {
+				structT = s
+				fieldsRead[ir.FieldOf(x).Name()] = true
+			}
+		case *ssa.Field:
+			if s, ok := derefStruct(x.X.Type()); ok && elemStruct != nil && types.Identical(s, elemStruct) {
+				structT = s
+				fieldsRead[ir.FieldOf(x).Name()] = true
+			}
+		case *ssa.Call:
+			n := ir.CalleeName(&x.Call)
+			if strings.HasSuffix(n, ".String") || strings.HasSuffix(n, ".Differentiator") {
+				stringCalled = true
+			}
+		case *ssa.BinOp:
+			if x.Op == token.LSS || x.Op == token.GTR {
+				if _, ok := x.X.(*ssa.UnOp); ok {
+					if ld := x.X.(*ssa.UnOp); ld.Op == token.MUL {
+						if _, isIdx := ld.X.(*ssa.IndexAddr); isIdx {
+							wholeCompared = true
+						}
+					}
+				}
+			}
+		}
+	})
+	if stringCalled || wholeCompared {
+		return true
+	}
+	if structT == nil {
+		return true // nothing recognisable: leave to the caller's audit
+	}
+	for i := 0; i < structT.NumFields(); i++ {
+		if !fieldsRead[structT.Field(i).Name()] {
+			return false
+		}
+	}
+	return true
+}
+
+func derefStruct(t types.Type) (*types.Struct, bool) {
+	for {
+		if p, ok := t.Underlying().(*types.Pointer); ok {
+			t = p.Elem()
+			continue
+		}
+		break
+	}
+	s, ok := t.Underlying().(*types.Struct)
+	return s, ok
 }
 
 // producerTainted: fn returns (or stores into its result) a slice built while ranging a
